@@ -92,10 +92,14 @@ CLAIMED["C13"] = dict(
     text="Decides keying and bounds: a sender is stored under the full (peer, gate) channel id and the transport route is built from the two halves of the same id; receivers build their route from the id they are keyed by, on the matching transport and map; sending at or beyond the declared count is refused before anything is written and the channel is closed at i+1 exactly after the last record; poll functions never return Pending without a registered waker; receive-path stream adapters pass errors on. Delivery, ordering within the window, deadlock freedom and the capacity/read-size alignment rule are not decided.",
     ref="§3 C13")
 
+CLAIMED["C17"] = dict(
+    technique="static analysis: method whitelist (who-may-call) on the chunk deque, who-may-write census and expression-shape pairing of the byte counter with deque mutations, def-use flow of every removed chunk into the returned value, dominator-based guard discharge of each panic-capable site, variant-arm dominance for the end-of-input and Pending returns, path reachability for records held at an error return",
+    text="Decides the structural clauses only: the chunk deque is used strictly as a FIFO; buffered_size is changed only together with the deque and by the number of bytes moved; read_bytes returns None exactly when fewer than len bytes are buffered and mutates nothing then, returns exactly len bytes otherwise and every removed byte reaches the result; every panic-capable site of the parser bodies is dominated by the guard that makes it safe (never panics); end of input with leftover bytes or a pending length prefix is an Err item and never end-of-stream; Pending is only passed on from the inner stream; records parsed in a poll are delivered before an error is reported. The equality of the record sequence over all chunkings of a byte string is NOT decided, nor is helpers/stream/chunks.rs (vectorisation chunks, not byte parsing).",
+    ref="§3 C17")
+
 NOT_APPLICABLE = {
     "C01": "end-to-end numerical equality of the MPC histogram with a plaintext reference over all inputs/shardings: no clause of it is visible in code shape; static analysis in reach cannot bound it (DESIGN.md §4)",
     "C07": "functional correctness of arithmetic/Boolean circuits over all operand values is numerical; would need symbolic execution of the circuits, a different technique family (DESIGN.md §4)",
-    "C17": "chunking-independence is an equality over all splittings of a byte string and needs relational reasoning about buffered contents; no sound static rule in reach (DESIGN.md §4)",
 }
 
 PENDING = "check not built yet in this revision (planned structural rules are described in DESIGN.md §3); not claimed until the rule module exists"
